@@ -67,7 +67,8 @@ def handle (op : String) (j : Json) : Except String Json := do
                         ("invalid", .num (JsonNumber.fromNat s.invalid))])
   | "br_to_future" =>
     let evs ← (← getArr j "events").mapM tfEventOfJson
-    pure (Json.mkObj [("fut", futToJson (ToFuture.run evs).fut)])
+    let s := ToFuture.run evs
+    pure (Json.mkObj [("fut", futToJson s.fut), ("src_disposed", .bool s.stopped)])
   | "br_run" =>
     let xs ← (← getArr j "xs").mapM notifOfJson
     pure (match ToFuture.runBlocking xs with
